@@ -24,6 +24,8 @@ PROP = {
                   "process memory is bounded through queue contents, the allocator itself is not modelled. Known model imprecision (errs towards extra "
                   "protocol errors, never hides one): a closed listener queue is counted as full in the window before ListenerDropped is processed.",
     "trivial_sig": r"malformed",
-    "rule": _EP_RULE,
+    "rule": _EP_RULE + " Every tenth case adds an oracle-only flood case: the peer starts a port message and keeps sending continuation chunks with fresh "
+            "ports and never the last one (max_received_ports 1..6): the receiver must fail with an error as soon as the limit is exceeded instead of accumulating; "
+            "or one batch names a port twice: the connection must end with a protocol error. Oracle in the main stream: a port batch without ports must end the connection.",
     "assumptions": ["paused-clock quiescence barrier", "hook H2 (codec) is used by the harness to speak the protocol"],
 }
